@@ -24,6 +24,7 @@
 #include "archive_write_disk_posix.c"
 
 #include <dirent.h>
+#include <sys/xattr.h>
 #include <ftw.h>
 #include <sys/wait.h>
 #include <signal.h>
@@ -233,6 +234,16 @@ static const char *group_of(ino_t ino)
 }
 
 /* one object: ( xpath type xlink xcontent mode mtime xgroup|nlink ) ; type 0 file 1 dir 2 symlink 4 fifo 9 other */
+/* an object outside the target that has gained the attribute of entry type 6 shows it in its mode field */
+static int has_user_xattr(int dfd, const char *name, int isdir)
+{
+	char v[8];
+	int fd = openat(dfd, name, O_RDONLY | O_NOFOLLOW | (isdir ? O_DIRECTORY : 0));
+	int r = 0;
+	if (fd >= 0) { r = fgetxattr(fd, "user.c04", v, sizeof(v)) >= 0; close(fd); }
+	return r;
+}
+
 static void dump_obj(int dfd, const char *name, const char *rel, int inside, int with_time)
 {
 	struct stat st;
@@ -250,13 +261,13 @@ static void dump_obj(int dfd, const char *name, const char *rel, int inside, int
 			close(fd);
 		}
 		o_bytes(buf, got);
-		o_int(st.st_mode & 07777);
+		o_int((st.st_mode & 07777) | (!inside && has_user_xattr(dfd, name, 0) ? 0100000 : 0));
 		/* an mtime nobody set explicitly is "now": printed as 0 */
 		o_int(with_time && st.st_mtime < 1500000000 ? (vint)st.st_mtime : 0);
 		if (inside) o_str(group_of(st.st_ino)); else o_int(st.st_nlink);
 	} else if (S_ISDIR(st.st_mode)) {
 		o_int(1); o_str(""); o_str("");
-		o_int(st.st_mode & 07777);
+		o_int((st.st_mode & 07777) | (!inside && has_user_xattr(dfd, name, 1) ? 0100000 : 0));
 		o_int(inside || st.st_mtime >= 1500000000 ? 0 : (vint)st.st_mtime);
 		if (inside) o_str(""); else o_int(0);
 	} else if (S_ISLNK(st.st_mode)) {
@@ -342,6 +353,11 @@ static struct archive_entry *make_entry(val *e, const char *absprefix)
 		if (dlen > 0) archive_entry_set_size(ae, (la_int64_t)dlen);
 		break;
 	case 4: archive_entry_set_mode(ae, AE_IFIFO | mode); break;
+	/* 5: a link target on an entry that says it is a regular file (the API allows it, a pax linkpath too) */
+	case 5: archive_entry_set_mode(ae, AE_IFREG | mode); archive_entry_copy_symlink(ae, l2); break;
+	/* 6: a symbolic link that carries an extended attribute */
+	case 6: archive_entry_set_mode(ae, AE_IFLNK | mode); archive_entry_copy_symlink(ae, l2);
+		archive_entry_xattr_add_entry(ae, "user.c04", "1", 1); break;
 	}
 	if (mt >= 0) archive_entry_set_mtime(ae, (time_t)mt, 0);
 	if (p2 != path) free(p2);
@@ -379,6 +395,8 @@ static void history_child(val *c)
 		if (hdr == ARCHIVE_OK && archive_entry_size(ae) > 0 && v_len(v_at(e, 5)) > 0)
 			(void)archive_write_data(a, v_at(e, 5)->b, v_len(v_at(e, 5)));
 		fin = archive_write_finish_entry(a);
+		/* entry type 6: Linux refuses user.* attributes on a symbolic link, the warning is not the model's business */
+		if (v_ll(v_at(e, 0)) == 6 && fin == ARCHIVE_WARN) fin = ARCHIVE_OK;
 		o_open(); o_int(hdr); o_int(fin); o_close();
 		archive_entry_free(ae);
 		/* the statement: cwd and umask are the same after every call as before it */
